@@ -70,6 +70,8 @@ func vpC20Formula(i int) Expression {
 		return vpBin(SK_Equals, vpId("$x"), &CallExpression{Expression: vpId("nofn"), Arguments: vpList()})
 	case 16:
 		return vpBin(SK_Equals, vpId("$x"), vpLit(SK_NumberLiteral, "9007199254740993"))
+	case 17: // nested assignment: $y = $x = 1
+		return vpBin(SK_Equals, vpId("$y"), vpBin(SK_Equals, vpId("$x"), vpNumLit(1)))
 	}
 	return vpBin(SK_Comma, vpBin(SK_Equals, vpId("$x"), vpNumLit(2)), vpId("$x"))
 }
@@ -145,6 +147,10 @@ func (m *vpRunnerModel) eval(i int) interface{} {
 	case 16:
 		m.set("$x", 9007199254740993) // a number that does not survive binary floating point
 		return 9007199254740993
+	case 17:
+		m.set("$x", 1)
+		m.set("$y", 1)
+		return 1
 	}
 	m.set("$x", 2)
 	return 2
@@ -159,17 +165,26 @@ func VP_C20_runner() {
 	// a map object the caller keeps and may hand to SetThis again (the model keeps its twin)
 	kept := map[string]interface{}{"a": 0}
 	keptModel := map[string]interface{}{"a": 0}
-	if vpBool("startWithMap") {
+	keptEmpty := map[string]interface{}{}
+	keptEmptyModel := map[string]interface{}{}
+	switch vpChoice("startWithMap", 3) {
+	case 1:
 		r.SetThis(kept)
 		m.this, m.has = keptModel, true
+	case 2: // an empty, non-nil map
+		r.SetThis(keptEmpty)
+		m.this, m.has = keptEmptyModel, true
 	}
 	for step := 0; step < N; step++ {
 		switch vpChoice("op", 5) {
 		case 0: // replace the data map
-			switch vpChoice("map", 5) {
+			switch vpChoice("map", 6) {
 			case 4:
 				r.SetThis(kept)
 				m.this, m.has = keptModel, true
+			case 5: // an empty (non-nil) map object the caller kept
+				r.SetThis(keptEmpty)
+				m.this, m.has = keptEmptyModel, true
 			case 0:
 				r.SetThis(nil)
 				m.this, m.has = nil, false
@@ -190,7 +205,7 @@ func VP_C20_runner() {
 			r.SetThisValue(k, v)
 			m.set(k, v)
 		case 2: // evaluate a formula
-			fi := vpChoice("f", 17)
+			fi := vpChoice("f", 18)
 			got, err := vpExact(r, ctx, vpC20Formula(fi))
 			want := m.eval(fi)
 			if _, skip := want.(vpSkip); skip {
